@@ -127,3 +127,17 @@ func vfIsNil(v interface{}) bool {
 	}
 	return false
 }
+
+func vfFieldElem(v interface{}, name string, i int) interface{} {
+	f, ok := vfFieldValue(v, name)
+	if !ok {
+		return nil
+	}
+	if i >= 0 {
+		if f.Kind() != reflect.Slice || i >= f.Len() {
+			return nil
+		}
+		f = f.Index(i)
+	}
+	return f.Interface()
+}
